@@ -378,6 +378,7 @@ func report(p *Property, tier string, seed int64, results []*PartResult, wall fl
 	nviol := 0
 	exit := 0
 	seenKnown := map[string]bool{}
+	seenViol := map[string]bool{}
 	var knownHit []string
 	for _, r := range results {
 		if r == nil {
@@ -421,6 +422,10 @@ func report(p *Property, tier string, seed int64, results []*PartResult, wall fl
 				}
 				continue
 			}
+			if seenViol[v.Signature] {
+				continue
+			}
+			seenViol[v.Signature] = true
 			nviol++
 			path := writeReplay(p.ID, v)
 			fmt.Printf("VIOLATION property=%s replay=%s\n", p.ID, path)
